@@ -900,6 +900,10 @@ impl Template {
 
                         match rule {
                             Rule::expression | Rule::html_expression => {
+                                // a value expression is never standalone: a standalone
+                                // marker left by a preceding `~}}` tag must not reach the
+                                // text after this expression
+                                trim_line_required = false;
                                 let helper_template =
                                     HelperTemplate::new(exp.clone(), false, false);
                                 let el = if rule == Rule::expression {
